@@ -95,21 +95,39 @@ func c17NodeStart(c *Ctx) {
 	k2s, _ := kindTable(t)
 	// arms: return blocks controlled by node.NodeType == K
 	arm := map[int64]*ssa.Return{}
+	// the dispatcher may route groups of kinds to same-package helpers that hold the arms
+	fns := []*ssa.Function{fn}
+	isHelper := map[*ssa.Function]bool{}
 	allInstrs(fn, func(in ssa.Instruction) {
-		ret, ok := in.(*ssa.Return)
-		if !ok {
-			return
-		}
-		for _, ec := range controlling(ret.Block()) {
-			if bo, ok := ec.Cond.(*ssa.BinOp); ok && bo.Op == token.EQL && ec.Pol && strings.HasSuffix(path(bo.X), ".NodeType") {
-				if v, ok := constInt(bo.Y); ok {
-					if _, dup := arm[v]; !dup || !strings.Contains(path(ret.Results[0]), "InvalidLnColPos") {
-						arm[v] = ret
-					}
+		if call, ok := in.(*ssa.Call); ok {
+			if h := call.Call.StaticCallee(); h != nil && h.Pkg == fn.Pkg && len(h.Blocks) > 0 && h.Signature.Recv() == nil && len(call.Call.Args) == 1 && call.Call.Args[0] == ssa.Value(fn.Params[0]) {
+				if !isHelper[h] {
+					isHelper[h] = true
+					fns = append(fns, h)
 				}
 			}
 		}
 	})
+	for _, g := range fns {
+		allInstrs(g, func(in ssa.Instruction) {
+			ret, ok := in.(*ssa.Return)
+			if !ok {
+				return
+			}
+			if call, isC := ret.Results[0].(*ssa.Call); isC && isHelper[call.Call.StaticCallee()] {
+				return // routed to a helper: the arm is there
+			}
+			for _, ec := range controlling(ret.Block()) {
+				if bo, ok := ec.Cond.(*ssa.BinOp); ok && bo.Op == token.EQL && ec.Pol && strings.HasSuffix(path(bo.X), ".NodeType") {
+					if v, ok := constInt(bo.Y); ok {
+						if _, dup := arm[v]; !dup || !strings.Contains(path(ret.Results[0]), "InvalidLnColPos") {
+							arm[v] = ret
+						}
+					}
+				}
+			}
+		})
+	}
 	for k, name := range names {
 		if name == "TypeInvalid" {
 			continue
@@ -650,16 +668,30 @@ func c17Chain(c *Ctx) {
 	for _, fn := range []*ssa.Function{ca, ne} {
 		want := map[string]string{"File": "file", "Ln": "pos.Ln", "Col": "pos.Col", "Pos": "pos.Pos"}
 		got := map[string]string{}
+		scan := func(g *ssa.Function, via *ssa.Call) {
+			allInstrs(g, func(in ssa.Instruction) {
+				s, ok := in.(*ssa.Store)
+				if !ok {
+					return
+				}
+				fa, ok := s.Addr.(*ssa.FieldAddr)
+				if !ok || namedOf(fa.X.Type()) != "errchain.Position" {
+					return
+				}
+				p := path(s.Val)
+				if via != nil {
+					p = translateParams(g, via, p)
+				}
+				got[fieldName(fa)] = p
+			})
+		}
+		scan(fn, nil)
 		allInstrs(fn, func(in ssa.Instruction) {
-			s, ok := in.(*ssa.Store)
-			if !ok {
-				return
+			if call, ok := in.(*ssa.Call); ok {
+				if h := call.Call.StaticCallee(); h != nil && h.Pkg == fn.Pkg && len(h.Blocks) > 0 && h != fn && h.Signature.Results().Len() > 0 && namedOf(h.Signature.Results().At(0).Type()) == "errchain.Position" {
+					scan(h, call)
+				}
 			}
-			fa, ok := s.Addr.(*ssa.FieldAddr)
-			if !ok || namedOf(fa.X.Type()) != "errchain.Position" {
-				return
-			}
-			got[fieldName(fa)] = path(s.Val)
 		})
 		for f, w := range want {
 			r.Ob("CHAIN", fmt.Sprintf("%s fills Position.%s", relName(fn), f), t.Pos(fn.Pos()), got[f] == w, fmt.Sprintf("Position.%s <- %s, want %s", f, got[f], w))
@@ -708,6 +740,9 @@ func c17Chain(c *Ctx) {
 							if s, ok := rr.(*ssa.Store); ok {
 								p := path(s.Val)
 								byIdx[k] = p[strings.LastIndex(p, ".")+1:]
+								if strings.Contains(p, "PosChain[0].") {
+									x.first = true // formats the head element, wherever the call sits
+								}
 							}
 						}
 					}
